@@ -105,7 +105,6 @@ private theorem scanHtml_text_pos : ∀ (s lit rest : Text) (tk : Tok),
         rw [C01.candidate_text _ _ _ hc]
         have := candidate_len_pos _ _ _ hc
         simp; omega
-      · cases h
       · cases hq : scanHtml t with
         | none => simp [hq] at h
         | some v =>
